@@ -41,7 +41,7 @@ def plan(tier):
                 'ftruncate touching the database or its journal, injected by strace into a separate server process; the parent reopens the file (with its journal) in a fresh engine and compares the full '
                 'observation with the twins "k requests applied"; a cell is (operation, position, crash class, outcome)'
                 % len(OPS),
-        'min_monitor': {'full_observations': 300, 'crash_points': 1500, 'deaths_confirmed': 1500, 'recoveries_compared': 1500,
+        'min_monitor': {'clean_endings_checked': 10, 'full_observations': 300, 'crash_points': 1500, 'deaths_confirmed': 1500, 'recoveries_compared': 1500,
                         'acks_verified': 300, 'outcome_applied': 50, 'outcome_absent': 200, 'startup_deaths': 60, 'storage_fault_points': 15},
         'assumptions': ['death inside a syscall, torn writes and power loss cannot be produced here',
                         'server-generated key bytes are masked when observations are compared',
@@ -61,6 +61,8 @@ def cases(tier, seed):
     cs += [{'kill': i} for i in range(n)]
     # death while the server starts: on a database file that does not exist yet, on an empty file, on a store in use
     cs += [{'startup': 'fresh'}, {'startup': 'empty-file'}, {'startup': 'existing'}]
+    # no death at all, or death between two requests: logging off / at DEBUG x close / exit / SIGKILL
+    cs += [{'clean': i} for i in range(12 if tier == 'quick' else 60)]
     if tier != 'quick':
         for op in OPS:
             for pos in (0, 1):
@@ -269,11 +271,25 @@ def obs_diff(a, b):
 
 # ------------------------------------------------------------------ the child
 
+def server_logging(debug):
+    """The dying server's logging level is part of its configuration: half of the crash points run with logging switched off
+    (as the other half always did), half at DEBUG with a handler that discards the records."""
+    import logging
+    if not debug:
+        logging.disable(logging.CRITICAL)
+        return
+    logging.disable(logging.NOTSET)
+    lg = logging.getLogger('kmip')
+    lg.setLevel(logging.DEBUG)
+    if not lg.handlers:
+        lg.addHandler(logging.NullHandler())
+    lg.propagate = False
+
+
 def child_run(path, seq, cls, k, wfd, line_stride=1):
     """Runs in the forked child: never returns."""
     try:
-        import logging
-        logging.disable(logging.CRITICAL)
+        server_logging(k % 2 == 1)
         srv = rig.Server(path)
         count = [0]
 
@@ -403,6 +419,8 @@ def run_case(ctx, case):
         return run_kill(ctx, case, rng)
     if 'startup' in case:
         return run_startup(ctx, case, rng)
+    if 'clean' in case:
+        return run_clean(ctx, case, rng)
     with rig.scratch_dir() as d:
         base = d + '/base.sqlite'
         env = prepare(base, rng)
@@ -575,8 +593,7 @@ def startup_child(path, k, wfd):
     """Forked child: a server process starting on `path` (the engine constructor creates or checks the schema), then
     serving one request; dies at the k-th SQL event of any SQLAlchemy engine in the process."""
     try:
-        import logging
-        logging.disable(logging.CRITICAL)
+        server_logging(k % 2 == 1)
         count = [0]
 
         def tick(*a, **kw):
@@ -599,6 +616,72 @@ def startup_child(path, k, wfd):
             pass
     finally:
         os._exit(0)
+
+
+def run_clean(ctx, case, rng):
+    """The crash point "none": a server process (a child of its own, logging switched off or at DEBUG) acknowledges a
+    sequence of creating and changing operations, then ends - by closing its engine, by simply exiting, or by SIGKILL between
+    two requests.  A new server on the same file must show every acknowledged effect."""
+    import signal
+    how = ('close', 'exit', 'kill')[case['clean'] % 3]
+    debug = (case['clean'] // 3) % 2 == 1
+    with rig.scratch_dir() as d:
+        path = d + '/db.sqlite'
+        rfd, wfd = os.pipe()
+        pid = os.fork()
+        if pid == 0:
+            try:
+                os.close(rfd)
+                server_logging(debug)
+                srv = rig.Server(path)
+                made = []
+                for i in range(rng.randrange(3, 9)):
+                    r = srv.send([rng.choice((op_create(names=['cl-%d' % i]),
+                                              op_register('secret', secret_data(b'cl-%d' % i), common_attrs(names=['cls-%d' % i]))))], OWNER, (1, 2))
+                    if r.error is None and r.ok():
+                        made.append(r.uid())
+                        os.write(wfd, ('made %s\n' % r.uid()).encode())
+                    if made and rng.random() < 0.5:
+                        u = rng.choice(made)
+                        r2 = srv.send([op_activate(u)], OWNER, (1, 2))
+                        if r2.error is None and r2.ok():
+                            os.write(wfd, ('active %s\n' % u).encode())
+                if how == 'close':
+                    srv.close()
+                elif how == 'kill':
+                    os.kill(os.getpid(), signal.SIGKILL)
+            finally:
+                os._exit(0)
+        os.close(wfd)
+        data = b''
+        while True:
+            chunk = os.read(rfd, 65536)
+            if not chunk:
+                break
+            data += chunk
+        os.close(rfd)
+        os.waitpid(pid, 0)
+        acks = [l.split() for l in data.decode().splitlines()]
+        srv = rig.Server(path)
+        try:
+            ctx.ev()
+            ctx.count('clean_endings_checked')
+            ctx.cell('clean', how, 'debug' if debug else 'logging-off')
+            for kind, u in acks:
+                ctx.count('acknowledged_effects_checked')
+                r = srv.send([op_get_attributes(u, ['State'])], OWNER, (1, 2))
+                if r.error is not None or not r.ok():
+                    ctx.violation('clean|%s|lost-ack' % how, 'object %s was acknowledged by a server that then ended by %s (logging %s); a new '
+                                  'server on the same file answers %s' % (u, how, 'at DEBUG' if debug else 'off', r.brief()), {'acks': acks})
+                    break
+                if kind == 'active':
+                    st = [x[2] for _, x in T.walk(r.payload()) if x[0] == 0x42000B and x[1] == T.ENUM]
+                    if st != [E.State.ACTIVE.value]:
+                        ctx.violation('clean|%s|lost-ack' % how, 'the acknowledged Activate of %s is not in effect after the server ended by %s '
+                                      '(logging %s): State %s' % (u, how, 'at DEBUG' if debug else 'off', st), {'acks': acks})
+                        break
+        finally:
+            srv.close()
 
 
 def run_startup(ctx, case, rng):
@@ -723,8 +806,7 @@ def run_kill(ctx, case, rng):
             if pid == 0:
                 os.close(rfd)
                 try:
-                    import logging
-                    logging.disable(logging.CRITICAL)
+                    server_logging(rep % 2 == 1)
                     srv = rig.Server(path)
                     i = 0
                     while True:
@@ -789,6 +871,8 @@ def strace_run(db, ackfile, case, env, inject=None, tracefile='/dev/null'):
         cmd += ['-e', 'inject=%s:signal=SIGKILL:when=%d' % inject]
     cmd += [sys.executable, '-m', 'kv.c09_child', db, ackfile, json.dumps(case), json.dumps(env)]
     e = dict(os.environ)
+    if inject and inject[1] % 2 == 1:
+        e['KV_C09_DEBUG'] = '1'
     try:
         p = subprocess.run(cmd, env=e, cwd=runner.ROOT, capture_output=True, timeout=120)
         return p.returncode
